@@ -332,6 +332,11 @@ func NewCommitVoteSetFromBytes(bs []byte) module.CommitVoteSet {
 	if err != nil {
 		return nil
 	}
+	// a list that cannot be serialized again (an item whose signature has
+	// no recovery id decodes, but does not encode) is not a valid vote list
+	if vl.bytes, err = vlCodec.MarshalToBytes(vl); err != nil {
+		return nil
+	}
 	return vl
 }
 
